@@ -1,10 +1,11 @@
 /- The table of all driver operations.  Each group adds its own list here. -/
 import Strengths.Driver.Units
 import Strengths.Driver.Grid
+import Strengths.Driver.Dict
 
 namespace Strengths.Driver
 
 def allOps : List (String × Handler) :=
-  unitsOps ++ gridOps
+  unitsOps ++ gridOps ++ dictOps
 
 end Strengths.Driver
